@@ -392,8 +392,8 @@ pub fn property() -> Property {
             Box::new(Sweep { name: "c04.installed", run: run_installed, replay: replay_zc }),
             Box::new(Sweep { name: "c04.bundled", run: run_bundled, replay: replay_zc }),
             Box::new(Sweep { name: "c04.synthetic", run: run_synthetic, replay: replay_zc }),
-            Box::new(Prop { name: "c04.generated", quick: 600_000, thorough: 30_000_000, strategy: strat_civil_probe, test: test_generated }),
-            Box::new(Prop { name: "c04.posix_gen", quick: 200_000, thorough: 10_000_000, strategy: strat_posix_civil, test: test_posix }),
+            Box::new(Prop { name: "c04.generated", quick: 2_400_000, thorough: 30_000_000, strategy: strat_civil_probe, test: test_generated }),
+            Box::new(Prop { name: "c04.posix_gen", quick: 800_000, thorough: 10_000_000, strategy: strat_posix_civil, test: test_posix }),
         ],
         floors: |rec| {
             rec.floor("c04.generated:in-or-at-window", "c04.generated:cases", 0.25);
